@@ -35,7 +35,7 @@ MANIFEST = {
 EXPLANATION = MANIFEST["level_text"]
 TRUSTED = [
     "pyvc VC generator (exception forks at every raise site; symbolic maps for free-form JSON objects and **kwargs binding)",
-    "z3 5.1.0 / cvc5 1.0.3",
+    "z3 5.1.0 / cvc5 1.4.0",
     "CPython json: loads returns a JSON value (null/bool/int/float/str/list/object with str keys) or raises ValueError (incl. JSONDecodeError, UnicodeDecodeError) / RecursionError; loads(dumps(d)) == d for dicts str->str",
     "pyarrow: KeyValueMetadata(dict).get(key) is the dict lookup; an IPC stream delivers batches and their custom metadata in the order written",
 ]
